@@ -103,6 +103,18 @@ func classify(ins ssa.Instruction) (kind string, ops []ssa.Value, aux int) {
 		return "typeAssert", []ssa.Value{x.X}, 0
 	case *ssa.Slice:
 		return "slice", []ssa.Value{x.X, x.Low, x.High, x.Max}, 0
+	case *ssa.Range:
+		return "range", []ssa.Value{x.X}, 0
+	case *ssa.Next:
+		return "next", []ssa.Value{x.Iter}, 0
+	case *ssa.Select:
+		var chans []ssa.Value
+		for _, st := range x.States {
+			if st.Dir == types.RecvOnly {
+				chans = append(chans, st.Chan)
+			}
+		}
+		return "select", chans, 0
 	case *ssa.Return:
 		return "ret", append([]ssa.Value(nil), x.Results...), 0
 	case *ssa.If:
